@@ -304,28 +304,29 @@ gradient statements, interpreting the table of touching statements that the tran
 (`Bridge/C16.lean : between_table_wf`).  The driver executes the same definitions against the real `Engine.train`. -/
 
 open DirectVerif.C16E in
-/-- **Nothing between two iterations touches gradients, optimiser, scheduler or scaler**: under a well-formed table every
-call site other than the prologue is the identity on the trainer state (and the prologue's `zero_grad()` is the identity
-on a process that starts with empty gradients). -/
+/-- **Nothing between two iterations touches gradients, optimiser, scheduler or scaler, and `Engine.train` starts from
+empty gradients**: under a well-formed table every call site other than the prologue is the identity on the trainer state,
+and the prologue leaves exactly `.grad = 0` — whatever gradients the parameters carried when `train()` was entered (a
+user's backward pass, a previous `train()` on the same objects that ended inside a window). -/
 theorem between_events_leave_state (ops : Ops P O G B L Sc) (lrAt : Nat → L) (tbl : C16E.Table)
     (h : wfBetween tbl = true) (hasVal : Bool) (s : St P O G Sc) :
     (∀ st, st ≠ Site.prologue → site tbl ops lrAt hasVal st s = s) ∧
-    (s.grad = ops.zero → site tbl ops lrAt hasVal .prologue s = s) :=
-  ⟨fun st hst => site_of_wf ops lrAt tbl h hasVal st hst s, site_prologue_of_wf ops lrAt tbl h hasVal s⟩
+    site tbl ops lrAt hasVal .prologue s = { s with grad := ops.zero } :=
+  ⟨fun st hst => site_of_wf ops lrAt tbl h hasVal st hst s, site_prologue_clears ops lrAt tbl h hasVal s⟩
 
 open DirectVerif.C16E in
 /-- **Events do not disturb accumulation**: a process that starts from scratch and is not killed is, on the trainer state,
 the plain run of `num_iterations` loop bodies — whatever `validation_steps`, `checkpoint_steps`, `start_with_validation`
-are and whether or not validation data is configured; so every theorem above applies to it. -/
+are, whether or not validation data is configured, and whatever stale gradients (`p.stale`) the parameters carried; so every theorem above applies to it. -/
 theorem events_do_not_disturb_accumulation (ops : Ops P O G B L Sc) (lrAt : Nat → L) (cfg : Cfg) (e : EvCfg)
     (batch : Nat → B) (tbl : C16E.Table) (h : wfBetween tbl = true) (rs : Int → Int → Int) (init : St P O G Sc)
     (hg : init.grad = ops.zero) (p : Proc) (hk : p.kill = none) :
     (runProc tbl rs ops lrAt cfg e batch init none p).s = runRange ops lrAt cfg batch init 0 p.total ∧
     (runProc tbl rs ops lrAt cfg e batch init none p).dead = false := by
-  have hstart : procStart tbl rs ops lrAt cfg e init none p = ⟨0, init, none, [], false⟩ := by
+  have hstart : procStart tbl rs ops lrAt cfg e batch init none p = ⟨0, init, none, [], false⟩ := by
     unfold procStart
     have : (if p.resume then (none : Option (Nat × Snap P O Sc)) else none) = none := by split <;> rfl
-    simp only [this, site_prologue_of_wf ops lrAt tbl h e.hasVal init hg]
+    simp only [this, site_prologue_of_wf ops lrAt tbl h e.hasVal batch init p init hg]
   have := runFrom_eq_runRange ops lrAt cfg e batch tbl h p ⟨0, init, none, [], false⟩ 0 p.total rfl
     (fun j hj => by rw [hk] at hj; cases hj)
   simp only [runProc, hstart, Nat.sub_zero]
@@ -376,7 +377,7 @@ theorem scheduler_steps_eq_iterations (ops : Ops P O G B L Sc) (lrAt : Nat → L
     let ps := runProc tbl rs ops lrAt cfg e batch init latest p
     ps.dead = false → ps.start ≤ p.total → ps.s.epoch = p.total := by
   intro ps hd hle
-  have hst : ps.start = (procStart tbl rs ops lrAt cfg e init latest p).start :=
+  have hst : ps.start = (procStart tbl rs ops lrAt cfg e batch init latest p).start :=
     (runFrom_start ops lrAt cfg e batch tbl p _ _ _)
   have := (runProc_inv ops lrAt cfg e batch tbl h rs hrs init h0 hg0 latest hl p).2.2 hd
   rw [this]; rw [hst] at hle; omega
@@ -414,6 +415,20 @@ theorem validate_zero_grad_violates :
       none p).s.theta = -36 := by
   decide
 
+/-- regression witness (seeded C16-8): without the prologue's `optimizer.zero_grad()` a gradient that sits on the
+parameters when `train()` is entered (here: of batch 9, i.e. 20) leaks into the first optimiser step: `k = 2`, two
+iterations, `θ = −3` becomes `−13`; the empty table is not well-formed -/
+theorem stale_gradients_leak_violates :
+    let cfg : Cfg := { k := 2 }
+    let e : C16E.EvCfg := { ckSteps := 1000000, valSteps := 1000000, hasVal := false }
+    let batch : Nat → Int := fun i => 2 * (i + 1)
+    let init : St Int Unit Int Unit := ⟨0, (), 0, 0, ()⟩
+    let p : C16E.Proc := { total := 2, kill := none, swv := false, resume := false, stale := some 9 }
+    (C16E.runProc C16E.tableNoPrologue C16E.resumeStart Toy.intOps (fun _ => (1 : Int)) cfg e batch init none p).s.theta = -13 ∧
+    (C16E.runProc C16E.table C16E.resumeStart Toy.intOps (fun _ => (1 : Int)) cfg e batch init none p).s.theta = -3 ∧
+    C16E.wfBetween C16E.tableNoPrologue = false := by
+  decide
+
 /-- regression witness (seeded C16-6): `start_iter -= start_iter % gradient_steps` without rewinding the restored
 scheduler.  `k = 2`, clean stop after iteration 6 (label 6), resume up to 10 iterations: the resumed process starts at
 iteration 6 with `last_epoch = 7`, runs iteration 6 a second time and ends with `last_epoch = 11` for 10 iterations -/
@@ -430,6 +445,24 @@ theorem resume_rewind_violates :
                                 (6, 11, [(6, 7), (7, 8), (8, 9), (9, 10)])] ∧
     H C16E.resumeStart = [(0, 7, [(0, 0), (1, 1), (2, 2), (3, 3), (4, 4), (5, 5), (6, 6)]),
                           (7, 10, [(7, 7), (8, 8), (9, 9)])] := by
+  decide
+
+/-! ## clipping with additional models: one call over the union of all optimised parameters -/
+
+/-- **One `clip_grad_norm_` call over the union = clipping the concatenated gradient against its global norm** (the `clip`
+of `additional_models_receive_mean` acts on `G × H` as a whole; `Bridge/C16.lean : clip_form_eq`) -/
+theorem clip_one_call_is_global (c : Int) (mods : List (List Int)) :
+    (C16E.clipModules C16E.clipForm c mods).flatten = C16E.clip1 c mods.flatten := by
+  simp only [C16E.clipModules, C16E.clipForm, C16E.clip1]
+  split
+  · rfl
+  · simp only [C16E.scaleTo, List.map_flatten]; rfl
+
+/-- regression witness (seeded C16-7): one call per module clips every module against its *own* norm: gradients `[6]` and
+`[2]`, threshold 4 (L1): the global clip gives `[3], [1]` (norm 4, direction kept), the per-module clip `[4], [2]` -/
+theorem clip_per_module_violates :
+    C16E.clipModules .oneCallUnion 4 [[6], [2]] = [[3], [1]] ∧ C16E.clipModules .perModule 4 [[6], [2]] = [[4], [2]] ∧
+    C16E.clipModules .mainOnly 4 [[6], [2]] = [[4], [2]] := by
   decide
 
 /-! ## mixed precision: the GradScaler protocol of the step branch -/
